@@ -243,6 +243,13 @@ def forall_keys_unchanged(a, b, k):
     return all(b.get(q, None) is a.get(q, None) for q in set(a) | set(b) if q != k)
 
 
+def item_schema(items_obj, j):
+    it = items_obj.items
+    if isinstance(it, list):
+        return it[j] if j < len(it) else items_obj.additional
+    return it
+
+
 def rbd(x):
     from statham.schema.validation import base
     if x is True:
